@@ -45,6 +45,8 @@ Definition elt (a b : Ext F) : bool :=
 Definition escale (c : F) (a : Ext F) : Ext F := match a with Fin x => Fin (fmul c x) | PInf => PInf end.
 
 Definition count_true (l : list bool) : Z := Z.of_nat (length (filter (fun b => b) l)).
+Fixpoint map2b (f : bool -> bool -> bool) (a b : list bool) : list bool :=
+  match a, b with x :: a', y :: b' => f x y :: map2b f a' b' | _, _ => [] end.
 Fixpoint set_inf (opt : list (Ext F)) (mask : list bool) : list (Ext F) :=
   match opt, mask with
   | o :: opt', m :: mask' => (if m then PInf else o) :: set_inf opt' mask'
@@ -151,7 +153,8 @@ Fixpoint outer_loop (fuel : nat) (lip : list F) (w Xw : list F) (obj : list (Ext
         bind (k_gsupp K (wp w)) (fun gs =>
         let unpen := map negb (k_is_penalized K) in
         let n_unpen := count_true unpen in
-        let ws_size := Z.max (Z.min (p0 cfg + n_unpen) (Z.of_nat p)) (Z.min (2 * count_true gs - n_unpen) (Z.of_nat p)) in
+        let n_gsupp_pen := count_true (map2b andb gs (k_is_penalized K)) in      (* np.logical_and(gsupp, ~unpen).sum() *)
+        let ws_size := Z.max (Z.min (p0 cfg + n_unpen) (Z.of_nat p)) (Z.min (2 * n_gsupp_pen + n_unpen) (Z.of_nat p)) in
         let opt := set_inf (set_inf opt unpen) gs in
         let ws := k_topk K opt (Z.to_nat ws_size) in
         bind (inner_loop (max_epochs cfg) 0 lip ws ws_size stop_crit w Xw (k_acc_init K) n_ep n_acc) (fun r2 =>
